@@ -127,6 +127,53 @@ def crashed_call_then_again(pair, res, secret, tier):
     return found
 
 
+def builder_over_existing(pair, r, res):
+    """'Opening existing storage recovers the stored public key and writability': the plain builder (no open mode, with the same,
+    another, a public-only or a foreign public-only key pair) over storage that already holds a core — a writer, a writer after
+    make_read_only, a replica. The stored key pair wins: public key, writability, NotWritable refusals with no storage operation."""
+    p = pair
+    found = []
+    pk_main = p.impl.cmd("prim pub main").split(" ")[1]
+    for kind in ("writer", "writer-readonly", "replica"):
+        for role in ("writer", "altwriter", "replica", "altreplica"):
+            p.reset(); p.raw("disk D")
+            p.do("new W D " + ("replica" if kind == "replica" else "writer"))
+            nb = 0
+            if kind != "replica":
+                nb = r.choice([1, 2, 5])
+                for j in range(nb):
+                    p.do("append W " + hexb(bytes([65 + j]) * (j + 1)))
+            if kind == "writer-readonly":
+                p.do("readonly W")
+            p.raw("drop W")
+            ia, _ = p.do("new W D " + role)
+            lab = "builder without open mode, key pair role %s, over storage holding a %s" % (role, kind)
+            res.count("builder-over-existing")
+            if ia != "ok":
+                found.append(dict(key="rebuild:result", what="%s answered %s" % (lab, ia[:100]), replay=dict(kind=kind, role=role))); continue
+            ib, _ = p.do("keypair W")
+            ic, _ = p.do("info W")
+            want_secret = "1" if kind == "writer" else "0"
+            if ib != "ok %s %s" % (pk_main, want_secret) or not ic.startswith("ok %d " % nb) or ic.split(" ")[5] != want_secret:
+                found.append(dict(key="rebuild:keypair", what="%s: key pair = %s, info = %s; the storage holds public key %s..., secret key %s, %d blocks" %
+                                  (lab, ib[:90], ic, pk_main[:16], "present" if want_secret == "1" else "absent", nb), replay=dict(kind=kind, role=role)))
+                continue
+            n0, _ = parse_journal(p.impl.cmd("journal D 0"))
+            id_, _ = p.do("append W 7a")
+            n1, _ = parse_journal(p.impl.cmd("journal D 0"))
+            if want_secret == "0" and (id_ != "err NotWritable" or n1 != n0):
+                found.append(dict(key="rebuild:writes", what="%s: append answered %s and issued %d storage operations; the stored core has no secret key" %
+                                  (lab, id_, n1 - n0), replay=dict(kind=kind, role=role)))
+                continue
+            if want_secret == "1" and not id_.startswith("ok %d " % (nb + 1)):
+                found.append(dict(key="rebuild:append", what="%s: append answered %s" % (lab, id_), replay=dict(kind=kind, role=role)))
+                continue
+            ie, _ = p.do("readonly W")
+            if ie != "ok " + want_secret:
+                found.append(dict(key="rebuild:readonly", what="%s: make_read_only answered %s (expected %s)" % (lab, ie, "ok " + want_secret), replay=dict(kind=kind, role=role)))
+    return found
+
+
 def main(tier, seed):
     res = Result("C12", tier, seed)
     res.gate = coq_gate("C12.v", clean=(tier == "thorough"))
@@ -185,6 +232,9 @@ def main(tier, seed):
                 res.violations.append(v)
                 break
             res.disagreements.extend(pair.disagreements[:2]); pair.disagreements = []
+        res.violations.extend(builder_over_existing(pair, r, res))
+        res.add_case(("builder-over-existing",), True, sample="plain builder with 4 key pair roles over storage holding a writer / a read-only writer / a replica")
+        res.disagreements.extend(pair.disagreements[:2]); pair.disagreements = []
         res.violations.extend(crashed_call_then_again(pair, res, secret, tier))
         res.add_case(("crashed-call-then-again",), True)
         res.extra["commands_compared"] = pair.ncmp
